@@ -1616,8 +1616,15 @@ class ModelBuilder:
                     # Task or resource limits - create Limits object
                     from scriptplan.core.limits import Limits
 
-                    limits_obj = Limits()
-                    limits_obj.setProject(obj.project)
+                    # A second 'limits { ... }' block in the same body adds to the first
+                    # (it used to replace it: 'limits { dailymax 2h } limits { weeklymax 20h }'
+                    # lost the daily limit)
+                    earlier = obj.get("limits", 0) if obj.provided("limits", 0) else None
+                    if earlier is not None and hasattr(earlier, "copy"):
+                        limits_obj = earlier.copy()
+                    else:
+                        limits_obj = Limits()
+                        limits_obj.setProject(obj.project)
 
                     # value is a list of limit dicts from parsing
                     for limit_def in value:
